@@ -253,7 +253,7 @@ fn main() {
             }
         }
     }
-    // ---- (c) damaged streams (outside C07's statement: no verdicts, model correspondence only):
+    // ---- (c) damaged streams (model correspondence, and the verdict of C07_damaged_*_reader below):
     // a frame that fails its CRC-16 is reported as an error; the history goes on polling
     let mut stale_after_error = 0u64;
     for (fi, f) in files.iter().enumerate() {
@@ -334,6 +334,61 @@ fn main() {
                     }
                     bump("damaged_histories", 1);
                     bump("ops", ops.len() as u64);
+                    // verdict (C07_damaged_*_reader): up to the first reported error everything handed out is, in order and
+                    // without a gap, the data of the frames before the damaged one; the error comes only when all of it has
+                    // been handed out (every refill happens with an empty buffer); no panic
+                    let mut dviol = String::new();
+                    {
+                        let w = f.bytes_per_sample();
+                        // one lane for bytes/samples, one per channel for the channel reader
+                        let expect: Vec<Vec<i64>> = match kind {
+                            Kind::BytesLe => vec![f.truth_bytes(false)[..at * f.ch * w].iter().map(|b| *b as i64).collect()],
+                            Kind::BytesBe => vec![f.truth_bytes(true)[..at * f.ch * w].iter().map(|b| *b as i64).collect()],
+                            Kind::Samples => vec![f.pcm[..at * f.ch].iter().map(|x| *x as i64).collect()],
+                            Kind::Channels => f.truth_channels().iter().map(|c| c[..at].iter().map(|x| *x as i64).collect()).collect(),
+                        };
+                        let mut got: Vec<Vec<i64>> = vec![vec![]; expect.len()];
+                        let mut shown: Vec<Vec<i64>> = vec![vec![]; expect.len()];
+                        let mut first_err: Option<usize> = None;
+                        for (i, (op, o)) in ops.iter().zip(obs.iter()).enumerate() {
+                            match (op, o) {
+                                (_, Obs::Err(_)) => { first_err = Some(i); break; }
+                                (_, Obs::Panic(p)) => { dviol = format!("damaged-panic|call {} panics: {}", i, p); break; }
+                                (Op::Read(_), Obs::Bytes(b)) => got[0].extend(b.iter().map(|x| *x as i64)),
+                                (Op::Read(_), Obs::Samples(x)) => got[0].extend(x.iter().map(|v| *v as i64)),
+                                (Op::Next, Obs::Item(Some(v))) => got[0].push(*v as i64),
+                                (Op::Fill, Obs::Bytes(b)) => shown[0] = b.iter().map(|x| *x as i64).collect(),
+                                (Op::Fill, Obs::Samples(x)) => shown[0] = x.iter().map(|v| *v as i64).collect(),
+                                (Op::Fill, Obs::Chans(c)) => { for (ci, lane) in shown.iter_mut().enumerate() { *lane = c.get(ci).map(|x| x.iter().map(|v| *v as i64).collect()).unwrap_or_default(); } }
+                                (Op::Consume(k), Obs::Unit) => {
+                                    for (lane, sh) in got.iter_mut().zip(shown.iter_mut()) {
+                                        let k = (*k).min(sh.len());
+                                        lane.extend(sh.drain(..k));
+                                    }
+                                }
+                                _ => {}
+                            }
+                            for (lane, (g_, sh)) in expect.iter().zip(got.iter().zip(shown.iter())) {
+                                let mut all = g_.clone();
+                                if matches!(op, Op::Fill) { all.extend(sh.iter()); }
+                                if dviol.is_empty() && (all.len() > lane.len() || all[..] != lane[..all.len()]) {
+                                    dviol = format!("damaged-delivers-other-data|before any error was reported, call {} ({}) made the {} reader hand out or show data that is not the next data of the frames before the damaged frame {} ({} items so far, {} good)", i, op.text(), kind.tag(), k, all.len(), lane.len());
+                                }
+                            }
+                        }
+                        if dviol.is_empty() {
+                            if let Some(i) = first_err {
+                                bump("damaged_error_reported", 1);
+                                if got.iter().zip(expect.iter()).any(|(g_, e)| g_.len() != e.len()) {
+                                    dviol = format!("damaged-error-not-after-all-good-data|the {} reader reported the error at call {} after handing out {} of the {} items that precede the damaged frame {}", kind.tag(), i, got[0].len(), expect[0].len(), k);
+                                }
+                            }
+                        }
+                    }
+                    if !dviol.is_empty() {
+                        let (key, desc) = dviol.split_once('|').unwrap();
+                        emit_viol(&g, kind, false, "whole", &ops, &obs, 0, &Verdict { key: key.to_string(), desc: desc.to_string() });
+                    }
                     emit_case(&g, kind, false, "whole", &ops, &obs, "damaged", "");
                 }
             }
